@@ -127,7 +127,20 @@ def libraries(seed, idx):
     if k == 4:
         m = objgen.gen_objlib(rng)
         header, dump = objgen.render_objlib(m, rng)
-        return 'c12', apigen.library(headers=[('/src/foo.h', header)], dump=dump)
+        # accessor methods that name another property than the one they are paired with by name
+        blocks = []
+        for c in m['classes']:
+            gp = [p['name'] for p in c['props'] if p['type'] == 'gint']
+            if c['accessors'] and gp:
+                us = 'foo_' + objgen.uscore(c['name'][3:])
+                others = [p['name'] for p in c['props']] + ['no-such-property']
+                for p in gp:
+                    for acc, ann in (('get', 'get-property'), ('set', 'set-property')):
+                        if rng.random() < 0.5:
+                            blocks.append('/**\n * %s_%s_%s: (%s %s)\n * @self: the object\n%s *\n * Accessor.\n%s */\n' % (
+                                us, acc, p.replace('-', '_'), ann, rng.choice(others), ' * @value: the value\n' if acc == 'set' else '',
+                                ' *\n * Returns: the value\n' if acc == 'get' else ''))
+        return 'c12', apigen.library(headers=[('/src/foo.h', header)], dump=dump, **({'sources': [('/src/foo.c', '\n'.join(blocks))]} if blocks else {}))
     lib = c13.gen_library(seed, idx)
     return 'c13', apigen.library(headers=[('/src/foo.h', lib['header'])], includes=['GLib-2.0'])
 
